@@ -257,6 +257,10 @@ func runC06(r *Run, verifDir string) {
 	c06Direction(r, "ResponseBatchItem", "newResponsePayload", "newRequestPayload", "ResponsePayload")
 	c06RegistryAccessors(r)
 
+	// ---------------- D6 the opaque payload keeps its operation
+	r.Rule("C06.D6", "UnknownPayload.opType is written only by its constructors: decoding never loses the operation code of an opaque payload", 3)
+	c06OpTypeWriters(r)
+
 	// ---------------- D5 fallbacks
 	r.Rule("C06.D5", "unknown operation/attribute -> opaque container; unknown object type -> error, checked at every call site before decoding the object", 3+4)
 	c06Fallbacks(r, reg)
@@ -647,5 +651,44 @@ func c06Fallbacks(r *Run, reg *Registry) {
 	}
 	if n < 4 {
 		r.Unk("C06.D5", "NewObjectForType/callsites", token.NoPos, "%d call sites found, 4 confirmed on the pinned tree", n)
+	}
+}
+
+// c06OpTypeWriters: who may write UnknownPayload.opType (field stores and whole-struct stores).
+func c06OpTypeWriters(r *Run) {
+	p := r.P
+	allowed := map[string]bool{"kmip.newRequestPayload": true, "kmip.newResponsePayload": true, "kmip.NewUnknownPayload": true}
+	n := 0
+	for _, fn := range p.OwnFuncs() {
+		ord := 0
+		allInstrs(fn, func(in ssa.Instruction) {
+			st, ok := in.(*ssa.Store)
+			if !ok {
+				return
+			}
+			writes := false
+			if _, fld, ok := fieldAddrOf(st.Addr); ok && fld.Name() == "opType" && typeName(st.Addr.(*ssa.FieldAddr).X.Type()) == "UnknownPayload" {
+				writes = true
+			}
+			if pt, ok := st.Addr.Type().Underlying().(*types.Pointer); ok && typeName(pt.Elem()) == "UnknownPayload" && typePkgPath(pt.Elem()) == modPath {
+				if _, isStruct := pt.Elem().Underlying().(*types.Struct); isStruct {
+					writes = true // *v = UnknownPayload{...}
+				}
+			}
+			if !writes {
+				return
+			}
+			n++
+			ord++
+			key := fmt.Sprintf("%s/store-opType#%d", fnKey(fn), ord)
+			if allowed[fnKey(fn)] {
+				r.OK("C06.D6", key, st.Pos(), "operation code set by constructor %s", fnKey(fn))
+			} else {
+				r.Bad("C06.D6", key, st.Pos(), "%s overwrites the operation code of an UnknownPayload after it was created for a given operation: a decoded opaque payload reports operation 0 and is re-encoded under the wrong operation", fnKey(fn))
+			}
+		})
+	}
+	if n == 0 {
+		r.Unk("C06.D6", "UnknownPayload.opType/writers", token.NoPos, "no writer of UnknownPayload.opType found")
 	}
 }
